@@ -94,7 +94,7 @@ pub fn sane_sizes(m: &Model) -> bool {
     let pos = |x: f32| x.is_finite() && x > 1e-3 && x < 1e6;
     let nonneg = |x: f32| x.is_finite() && x >= 0.0 && x < 1e6;
     let opt_nonneg = |x: Option<f32>| x.map_or(true, nonneg);
-    let poly_ok = |p: &Polygon| p.len() >= 3 && p.iter().all(|q| q.x.is_finite() && q.y.is_finite() && q.x.abs() < 1e5 && q.y.abs() < 1e5) && HasSurface::area(p) > 1e-3;
+    let poly_ok = |p: &Polygon| p.len() >= 3 && p.iter().all(|q| q.x.is_finite() && q.y.is_finite() && q.x.abs() < 1e5 && q.y.abs() < 1e5) && HasSurface::area(p) > 1e-2 && HasSurface::area(p) > 0.02 * HasSurface::perimeter(p); // not a sliver: mean width above 4 cm
     let geom_ok = |g: &WallGeom| g.tilt.is_finite() && g.azimuth.is_finite() && g.tilt.abs() <= 720.0 && g.azimuth.abs() <= 720.0 && poly_ok(&g.polygon) && g.position.map_or(true, |p| p.iter().all(|c| c.is_finite() && c.abs() < 1e5));
     m.meta.num_dwellings >= 0
         && opt_nonneg(m.meta.global_ventilation_l_s)
